@@ -20,10 +20,12 @@ CLAUSES = ["P07_each_field_once_under_its_CGI_name_joined_in_order", "P07_wsgi_i
            "P07_client_fields_never_replace_server_variables"]
 
 NAMES = [b"X-Foo", b"x-foo", b"X_Foo", b"X-FOO", b"Content-Type", b"Content_Type", b"content-type", b"Remote-Addr", b"Server-Name", b"Script-Name",
-         b"Path-Info", b"Server-Port", b"Request-Method", b"Query-String", b"Wsgi.Input", b"Accept", b"Cookie", b"X-a.b~c!", b"Http-Host", b"Url-Scheme"]
+         b"Path-Info", b"Server-Port", b"Request-Method", b"Query-String", b"Wsgi.Input", b"Accept", b"Cookie", b"X-a.b~c!", b"Http-Host", b"Url-Scheme",
+         # every letter in both cases, digits and the other token characters
+         b"Authorization", b"X-Zone", b"x-zone", b"X-ZONE", b"Abcdefghijklm-Nopqrstuvwxyz", b"ABCDEFGHIJKLM-nopqrstuvwxyz", b"X-0123456789", b"X-#$%&'*+.^`|"]
 VALUES = [b"v", b"two words", b"a,b", b"caf\xe9", b"a\tb", b"", b"  padded  ", b"x" * 40, b"1", b"\xff\xfe"]
 TARGETS = [b"/", b"/a", b"/p", b"/p/", b"/p/x", b"/pq", b"/p/q/r", b"/a?x=1&y=2", b"/a?", b"/a#frag", b"/a%20b", b"/a%2Fb", b"/%41", b"/a%", b"/a%4", b"/a%zz",
-           b"/a%00b", b"/caf%C3%A9", b"/a;p=1", b"/a?q=%20", b"/p?x#y", b"//dbl", b"http://h.example/abs?q=1", b"https://h.example/abs", b"ftp://h.example/x?y", b"HTTPS://H.example/", b"*"]
+           b"/a%00b", b"/caf%C3%A9", b"/a;p=1", b"/a?q=%20", b"/p?x#y", b"//dbl", b"//p/x", b"///p", b"/%2Fp/x", b"/p//x", b"/p/%2Fx", b"//p", b"http://h.example/abs?q=1", b"https://h.example/abs", b"ftp://h.example/x?y", b"HTTPS://H.example/", b"*"]
 
 
 def requests(thorough, rng):
